@@ -17,6 +17,7 @@ theorem tables_ok : TablesOK where
   letters_free := by decide +kernel
   term_token := by decide +kernel
   number_token := by decide +kernel
+  plus_token := by decide +kernel
   number_start := by decide +kernel
   char_token := by decide +kernel
   special_ascii := by decide +kernel
@@ -25,7 +26,7 @@ theorem tables_ok : TablesOK where
 /-- the round-trip theorem for the tables as they are in the repository now -/
 theorem print_read_roundtrip_now (cfg : PCfg) (hC : CfgOK cfg) (x : Obj) (hwf : WF x) :
     ∃ y, readAll 10 (printFlat cfg x) = .ok y ∧ objEq x y = true :=
-  SlipVerif.Theorems.C03.print_read_roundtrip_partial tables_ok cfg hC x hwf
+  SlipVerif.Theorems.C03.print_read_roundtrip tables_ok cfg hC x hwf
 
 /-- the pretty text reads back to the same object as the flat text, for the tables as they are now -/
 theorem pretty_read_roundtrip_now (cfg : PCfg) (hC : CfgOK cfg) (margin : Nat) (x : Obj) (hwf : WF x) :
